@@ -41,12 +41,12 @@ Lemma effective_color_some d t c : effective_color d t = Some c -> dcolor_is_non
 Proof. destruct d; cbn; congruence. Qed.
 
 Theorem line_drawn_in_box F s line p b q :
-  font_ok (mf_geom F) -> deco_inside (mf_geom F) -> draw_ok (mf_geom F) p (length line) ->
+  font_ok (mf_geom F) -> deco_inside (mf_geom F) -> draw_ok (mf_geom F) p (length line) -> index_ok F line ->
   advance_consistent (mf_geom F) s line ->
   render (fst (draw_string F s line p b)) q <> None ->
   contains (fst (measure_string (mf_geom F) s line p b)) q = true.
 Proof.
-  intros Hf Hdi Hd Ha H. set (f := mf_geom F) in *.
+  intros Hf Hdi Hd Hix Ha H. set (f := mf_geom F) in *.
   assert (Hcw : 0 <= f_cw f) by (red in Hf; tauto).
   assert (Hsp : 0 <= f_sp f) by (red in Hf; tauto).
   rewrite render_draw_string in H by assumption. cbn zeta in H. fold f in H.
@@ -122,18 +122,18 @@ Qed.
 
 (* ====================================================================== C02 text clause *)
 (* every line that Text::lines yields is inside the coordinate range and its advance is the measured one *)
-Definition text_ok (f : font) (s : cstyle) (ts : tstyle) (pos : point) (text : list Z) : Prop :=
-  forall line p, In (line, p) (text_lines f s ts pos text) ->
-    draw_ok f p (length line) /\ advance_consistent f s line.
+Definition text_ok (F : mfont) (s : cstyle) (ts : tstyle) (pos : point) (text : list Z) : Prop :=
+  forall line p, In (line, p) (text_lines (mf_geom F) s ts pos text) ->
+    draw_ok (mf_geom F) p (length line) /\ index_ok F line /\ advance_consistent (mf_geom F) s line.
 
 Theorem text_drawn_in_bbox F s ts pos text q :
-  font_ok (mf_geom F) -> deco_inside (mf_geom F) -> text_ok (mf_geom F) s ts pos text ->
+  font_ok (mf_geom F) -> deco_inside (mf_geom F) -> text_ok F s ts pos text ->
   render (fst (text_draw F s ts pos text)) q <> None ->
   contains (text_bbox (mf_geom F) s ts pos text) q = true.
 Proof.
   intros Hf Hdi Hok H. unfold text_draw in H. rewrite render_draw_lines in H.
   destruct (lines_pixel_some _ _ _ _ _ H) as (l & p & Hin & Hr).
-  destruct (Hok l p Hin) as [Hd Ha].
+  destruct (Hok l p Hin) as (Hd & Hix & Ha).
   eapply text_bbox_contains_line_box; [exact Hin|].
   apply line_drawn_in_box; assumption.
 Qed.
@@ -198,10 +198,11 @@ Proof. unfold origin, padd. cbn [px py]. f_equal. lia. Qed.
 
 Theorem draw_string_translate F s l p b d q :
   font_ok (mf_geom F) -> draw_ok (mf_geom F) p (length l) -> draw_ok (mf_geom F) (padd p d) (length l) ->
+  index_ok F l ->
   render (fst (draw_string F s l (padd p d) b)) (padd q d) = render (fst (draw_string F s l p b)) q /\
   snd (draw_string F s l (padd p d) b) = padd (snd (draw_string F s l p b)) d.
 Proof.
-  intros Hf H1 H2. split.
+  intros Hf H1 H2 Hix. split.
   - rewrite !render_draw_string by assumption. cbn zeta.
     rewrite origin_translate, deco_pixel_translate, line_pixel_translate. reflexivity.
   - rewrite !draw_string_next. unfold padd. cbn [px py]. f_equal. lia.
@@ -229,19 +230,20 @@ Lemma text_lines_translate f s ts pos d text :
 Proof. apply lines_from_translate. Qed.
 
 (* both the text and its translate stay inside the coordinate range *)
-Definition text_in_range (f : font) (s : cstyle) (ts : tstyle) (pos : point) (text : list Z) : Prop :=
-  forall line p, In (line, p) (text_lines f s ts pos text) -> draw_ok f p (length line).
+Definition text_in_range (F : mfont) (s : cstyle) (ts : tstyle) (pos : point) (text : list Z) : Prop :=
+  forall line p, In (line, p) (text_lines (mf_geom F) s ts pos text) ->
+    draw_ok (mf_geom F) p (length line) /\ index_ok F line.
 
 Lemma draw_lines_translate F s b d ls : forall next q,
   font_ok (mf_geom F) ->
-  (forall l p, In (l, p) ls -> draw_ok (mf_geom F) p (length l) /\ draw_ok (mf_geom F) (padd p d) (length l)) ->
+  (forall l p, In (l, p) ls -> draw_ok (mf_geom F) p (length l) /\ draw_ok (mf_geom F) (padd p d) (length l) /\ index_ok F l) ->
   lines_pixel F s b (shift_lines d ls) (padd q d) = lines_pixel F s b ls q /\
   snd (draw_lines F s b (padd next d) (shift_lines d ls)) = padd (snd (draw_lines F s b next ls)) d.
 Proof.
   induction ls as [|[l p] ls IH]; intros next q Hf Hok; [split; reflexivity|].
   cbn [shift_lines map fst snd lines_pixel draw_lines].
-  destruct (Hok l p (or_introl eq_refl)) as [H1 H2].
-  destruct (draw_string_translate F s l p b d q Hf H1 H2) as [E1 E2].
+  destruct (Hok l p (or_introl eq_refl)) as (H1 & H2 & Hix).
+  destruct (draw_string_translate F s l p b d q Hf H1 H2 Hix) as [E1 E2].
   fold (shift_lines d ls).
   destruct (IH (snd (draw_string F s l p b)) q Hf) as [E3 E4].
   { intros l' p' Hin. apply Hok. right. exact Hin. }
@@ -252,14 +254,14 @@ Qed.
 
 Theorem text_draw_translate F s ts pos d text q :
   font_ok (mf_geom F) ->
-  text_in_range (mf_geom F) s ts pos text -> text_in_range (mf_geom F) s ts (padd pos d) text ->
+  text_in_range F s ts pos text -> text_in_range F s ts (padd pos d) text ->
   render (fst (text_draw F s ts (padd pos d) text)) (padd q d) = render (fst (text_draw F s ts pos text)) q /\
   snd (text_draw F s ts (padd pos d) text) = padd (snd (text_draw F s ts pos text)) d.
 Proof.
   intros Hf H1 H2. unfold text_draw. rewrite !render_draw_lines, text_lines_translate.
   apply draw_lines_translate; [assumption|].
-  intros l p Hin. split; [apply H1; assumption|].
-  apply H2. rewrite text_lines_translate. unfold shift_lines.
+  intros l p Hin. destruct (H1 l p Hin) as [Ha Hb]. split; [exact Ha|]. split; [|exact Hb].
+  apply (H2 l (padd p d)). rewrite text_lines_translate. unfold shift_lines.
   apply in_map_iff. exists (l, p). split; [reflexivity|assumption].
 Qed.
 
@@ -309,4 +311,125 @@ Proof.
   - unfold with_corners, translate_rect, size_from_bounding_box, padd. cbn [tl sz px py].
     f_equal; f_equal; lia.
   - reflexivity.
+Qed.
+
+(* ====================================================================== C14 at Text level *)
+(* Text::draw of a text without '\n' is draw_string of the (CR stripped) line at the aligned position *)
+Theorem text_draw_one_line F s ts pos l :
+  no_nl l ->
+  text_draw F s ts pos l =
+  draw_string F s (strip_cr l) (line_position (mf_geom F) s ts pos (strip_cr l)) (t_base ts).
+Proof. exact (text_draw_single_line F s ts pos l). Qed.
+
+(* any line of a multi-line text: where no OTHER line draws (lines do not overlap when the line height is at
+   least the glyph / decoration height), the pixel is the one draw_string gives that line *)
+Lemma lines_pixel_nth F s b ls : forall k line p q,
+  nth_error ls k = Some (line, p) ->
+  (forall j l' p', j <> k -> nth_error ls j = Some (l', p') -> render (fst (draw_string F s l' p' b)) q = None) ->
+  lines_pixel F s b ls q = render (fst (draw_string F s line p b)) q.
+Proof.
+  induction ls as [|[l0 p0] ls IH]; intros k line p q Hn Hother; [destruct k; discriminate|].
+  cbn [lines_pixel]. destruct k as [|k]; cbn [nth_error] in Hn.
+  - injection Hn as -> ->.
+    assert (E : forall ls', (forall j l' p', nth_error ls' j = Some (l', p') -> render (fst (draw_string F s l' p' b)) q = None) ->
+                lines_pixel F s b ls' q = None).
+    { induction ls' as [|[l1 p1] ls' IH2]; intros H; [reflexivity|]. cbn [lines_pixel].
+      rewrite IH2 by (intros j l' p' Hj; apply (H (Datatypes.S j)); exact Hj).
+      rewrite (H O l1 p1 eq_refl). reflexivity. }
+    rewrite E; [reflexivity|]. intros j l' p' Hj. apply (Hother (Datatypes.S j)); [discriminate|exact Hj].
+  - rewrite (IH k line p q Hn).
+    + rewrite (Hother O l0 p0) by (try discriminate; reflexivity). apply orelse_none_r.
+    + intros j l' p' Hj Hnj. apply (Hother (Datatypes.S j)); [congruence|exact Hnj].
+Qed.
+
+Theorem text_line_pixels F s ts pos text k line p q :
+  nth_error (text_lines (mf_geom F) s ts pos text) k = Some (line, p) ->
+  (forall j l' p', j <> k -> nth_error (text_lines (mf_geom F) s ts pos text) j = Some (l', p') ->
+                   render (fst (draw_string F s l' p' (t_base ts))) q = None) ->
+  render (fst (text_draw F s ts pos text)) q = render (fst (draw_string F s line p (t_base ts))) q.
+Proof. intros Hn Ho. unfold text_draw. rewrite render_draw_lines. apply (lines_pixel_nth F s (t_base ts) _ k); assumption. Qed.
+
+(* the property's wording: Text with a MonoTextStyle, i-th character of a (single, left aligned) line *)
+Theorem text_cell F s ts pos text i c dx dy :
+  font_ok (mf_geom F) -> draw_ok (mf_geom F) pos (length text) -> index_ok F text ->
+  t_align ts = ALeft -> no_nl text -> strip_cr text = text ->
+  nth_error text i = Some c -> 0 <= dx < f_cw (mf_geom F) -> 0 <= dy < f_ch (mf_geom F) ->
+  let f := mf_geom F in
+  let q := P (px pos + Z.of_nat i * (f_cw f + f_sp f) + dx) (py pos - baseline_offset f (t_base ts) + dy) in
+  render (fst (text_draw F s ts pos text)) q =
+  orelse (deco_pixel f s (origin f pos (t_base ts)) (advance f s (length text)) q) (cell_colour F s c dx dy).
+Proof.
+  intros Hf Hd Hix Ha Hn Hc Hi Hdx Hdy. cbn zeta. rewrite text_draw_single_line by assumption.
+  rewrite Hc. unfold line_position. rewrite Ha.
+  exact (draw_string_cell F s text pos (t_base ts) i c dx dy Hf Hd Hix Hi Hdx Hdy).
+Qed.
+
+(* ====================================================================== bounding box = hull of the line boxes *)
+(* (a) it contains every line box: text_bbox_contains_line_box above.
+   (b) it is the smallest such rectangle: every rectangle that contains all line boxes contains it. *)
+Definition line_box (f : font) (s : cstyle) (ts : tstyle) (lp : list Z * point) : rect :=
+  fst (measure_string f s (fst lp) (snd lp) (t_base ts)).
+
+Definition mm_inside (c : rect) (mm : option (point * point)) : Prop :=
+  match mm with
+  | Some (mn, mx) => contains c mn = true /\ contains c mx = true
+  | None => True
+  end.
+
+Lemma update_mm_inside c mm bb :
+  mm_inside c mm -> (forall q, contains bb q = true -> contains c q = true) ->
+  mm_inside c (update_min_max mm bb).
+Proof.
+  intros Hm Hb. unfold update_min_max. destruct (bottom_right bb) as [br|] eqn:E; [|exact Hm].
+  unfold bottom_right in E. destruct ((0 <? sw (sz bb)) && (0 <? sh (sz bb))) eqn:Epos; [|discriminate].
+  injection E as <-.
+  assert (Htl : contains c (tl bb) = true) by (apply Hb, contains_spec; lia).
+  assert (Hbr : contains c (P (px (tl bb) + sw (sz bb) - 1) (py (tl bb) + sh (sz bb) - 1)) = true)
+    by (apply Hb, contains_spec; cbn [px py]; lia).
+  destruct mm as [[mn mx]|]; cbn [mm_inside] in *; [|split; assumption].
+  destruct Hm as [Hmn Hmx]. apply contains_spec in Htl, Hbr, Hmn, Hmx. cbn [px py] in Hbr.
+  split; apply contains_spec; cbn [px py]; lia.
+Qed.
+
+Lemma fold_mm_inside c (g : list Z * point -> rect) ls : forall mm,
+  mm_inside c mm -> (forall lp q, In lp ls -> contains (g lp) q = true -> contains c q = true) ->
+  mm_inside c (fold_left (fun acc lp => update_min_max acc (g lp)) ls mm).
+Proof.
+  induction ls as [|lp ls IH]; intros mm Hm Hb; cbn [fold_left]; [exact Hm|].
+  apply IH.
+  - apply update_mm_inside; [exact Hm|]. intros q Hq. apply (Hb lp q); [left; reflexivity|exact Hq].
+  - intros lp' q Hin Hq. apply (Hb lp' q); [right; exact Hin|exact Hq].
+Qed.
+
+Theorem text_bbox_smallest f s ts pos text c :
+  (forall lp q, In lp (text_lines f s ts pos text) -> contains (line_box f s ts lp) q = true -> contains c q = true) ->
+  forall q, contains (text_bbox f s ts pos text) q = true -> contains c q = true.
+Proof.
+  intros Hb q Hq. unfold text_bbox in Hq.
+  pose proof (fold_mm_inside c (line_box f s ts) (text_lines f s ts pos text) None I Hb) as H.
+  unfold line_box in H.
+  destruct (fold_left _ _ None) as [[mn mx]|].
+  - cbn [mm_inside] in H. destruct H as [Hmn Hmx]. apply with_corners_spec in Hq.
+    apply contains_spec in Hmn, Hmx. apply contains_spec. lia.
+  - rewrite contains_zero_width in Hq. discriminate.
+Qed.
+
+Theorem text_bbox_contains_line_boxes f s ts pos text lp q :
+  In lp (text_lines f s ts pos text) -> contains (line_box f s ts lp) q = true ->
+  contains (text_bbox f s ts pos text) q = true.
+Proof. destruct lp as [line p]. apply text_bbox_contains_line_box. Qed.
+
+(* no non-empty line: the zero-sized box at the text position *)
+Theorem text_bbox_all_empty f s ts pos text :
+  0 <= f_cw f -> 0 <= f_sp f ->
+  (forall line p, In (line, p) (text_lines f s ts pos text) -> line = []) ->
+  text_bbox f s ts pos text = R pos (S 0 0).
+Proof.
+  intros H1 H2 He. unfold text_bbox.
+  assert (E : forall ls, (forall line p, In (line, p) ls -> line = []) ->
+              fold_left (fun acc lp => update_min_max acc (fst (measure_string f s (fst lp) (snd lp) (t_base ts)))) ls None = None).
+  { induction ls as [|[l p] ls IH]; intros H; [reflexivity|]. cbn [fold_left fst snd].
+    rewrite (H l p (or_introl eq_refl)). rewrite measure_string_eq by assumption. cbn [fst length line_width].
+    unfold update_min_max, bottom_right. cbn [sz sw]. cbn. apply IH. intros l' p' Hin. apply (H l' p'). right. exact Hin. }
+  rewrite E by exact He. reflexivity.
 Qed.
